@@ -43,6 +43,12 @@ def step (op implObs : String) : String × List String × List String :=
         if implObs.startsWith "reject:" then [] else [s!"C06 unexpected-observation obs={implObs.take 40}"]
       | some o =>
         (if WF o then [] else [s!"C06 accepted-not-wellformed kind={classify o}"]) ++
+        -- C19: the private flag of an accepted description must be read as the encoding rule says
+        -- (integer ≠ 0, string other than "" and "0", any other type → private; absent → public)
+        (match decodeDict (kvStr toks "mode" = "meta") (kvStr toks "d") with
+         | .ok ib => if parsePrivate ib.priv && !o.priv then ["C19 private-flag-read-as-public"]
+                     else if !(parsePrivate ib.priv) && o.priv then ["C19 public-flag-read-as-private"] else []
+         | _ => []) ++
         (match kv? (words implObs) "pieces" with
          | some "done" => []
          | some r => [s!"C06 newpieces-{r} kind={if WF o then "wellformed-input" else classify o}"]
